@@ -282,11 +282,15 @@ pub fn c14(run: &Run) -> Vec<String> {
                 // (resizes change the pool under the probe and a draining factory hands nothing out; worker deaths
                 // do not excuse anything: at quiescence the dead worker has been replaced and its replacement is
                 // as available as any worker)
-                let after_resize_or_death = run.history[..=*step].iter().any(|e| matches!(e, Event::Resize(_) | Event::Drain | Event::StopSlowly(_) | Event::ArmKillOnDiscard(_)));
-                if *q > 0 && *active < run.cfg.workers && !after_resize_or_death && matches!(run.cfg.routing, Routing::Queuer | Routing::RlQueuer) && !(run.cfg.rate_limited()) {
+                // (a resize is honoured as well: the pool size is the one requested last; a worker that a shrink
+                // is retiring still counts as busy until it is done, so "fewer busy workers than the pool size"
+                // means that a worker of the pool proper is idle)
+                let after_resize_or_death = run.history[..=*step].iter().any(|e| matches!(e, Event::Drain | Event::StopSlowly(_) | Event::ArmKillOnDiscard(_)));
+                let size = run.history[..=*step].iter().rev().find_map(|e| if let Event::Resize(n) = e { Some(*n) } else { None }).unwrap_or(run.cfg.workers);
+                if *q > 0 && *active < size && !after_resize_or_death && matches!(run.cfg.routing, Routing::Queuer | Routing::RlQueuer) && !(run.cfg.rate_limited()) {
                     bad.push(format!(
-                        "{sig}after step {step} of {:?}: {q} job(s) wait in the factory queue while only {active} of {} workers are busy ({in_progress} jobs in progress)",
-                        run.history, run.cfg.workers
+                        "{sig}after step {step} of {:?}: {q} job(s) wait in the factory queue while only {active} of {size} workers are busy ({in_progress} jobs in progress)",
+                        run.history
                     ));
                 }
             }
@@ -485,6 +489,12 @@ pub fn c15(run: &Run) -> Vec<String> {
         }
         if run.factory_status != ActorStatus::Stopped && run.deaths == 0 {
             bad.push(format!("DrainRequests was issued, every accepted job finished, but the factory is {:?} (history {:?})", run.factory_status, run.history));
+        }
+        // ... also when a worker's death (not a Finished message) was what completed the drain: nothing is
+        // running or waiting any more, two periodic ticks have passed
+        let waiting = run.jobs.iter().any(|j| !j.after_drain && !j.send_failed && f[&j.id].starts.is_empty() && f[&j.id].discards.is_empty() && j.accepted != Some(false));
+        if run.factory_status != ActorStatus::Stopped && run.deaths > 0 && run.still_in_progress == 0 && !waiting && !run.history.iter().any(|e| matches!(e, Event::StopSlowly(_))) {
+            bad.push(format!("{}DrainRequests was issued, nothing is running or waiting any more (the last job went down with its worker), two ticks have passed, but the factory is {:?} (history {:?})", if stale_finished(run) { "[[sig:stale-finished-after-replacement]] " } else { "" }, run.factory_status, run.history));
         }
         let hooks: Vec<&str> = run.events.iter().filter_map(|(_, e)| if let Ev::Hook(h) = e { Some(*h) } else { None }).collect();
         let want: &[&str] = if run.factory_status == ActorStatus::Stopped { &["started", "draining", "stopped"] } else { &["started", "draining"] };
